@@ -417,3 +417,37 @@ def parse_dump(path):
         if blk:
             out.append(parse_state(blk))
     return out
+
+
+# --------------------------------------------------------------------------
+# JSON round trip of parsed TLA+ values (replay files)
+# --------------------------------------------------------------------------
+def to_jsonable(v):
+    if isinstance(v, bool) or v is None or isinstance(v, (int, float, str)):
+        return v
+    if isinstance(v, tuple):
+        return {"__tuple__": [to_jsonable(x) for x in v]}
+    if isinstance(v, (set, frozenset)):
+        return {"__set__": sorted((to_jsonable(x) for x in v), key=repr)}
+    if isinstance(v, dict):
+        return {"__dict__": [[to_jsonable(k), to_jsonable(x)] for k, x in v.items()]}
+    if isinstance(v, list):
+        return [to_jsonable(x) for x in v]
+    return str(v)
+
+
+def from_jsonable(v):
+    if isinstance(v, list):
+        return [from_jsonable(x) for x in v]
+    if isinstance(v, dict):
+        if "__tuple__" in v:
+            return tuple(from_jsonable(x) for x in v["__tuple__"])
+        if "__set__" in v:
+            return frozenset(from_jsonable(x) for x in v["__set__"])
+        if "__dict__" in v:
+            d = FD()
+            for k, x in v["__dict__"]:
+                d[from_jsonable(k)] = from_jsonable(x)
+            return d
+        return {k: from_jsonable(x) for k, x in v.items()}
+    return v
